@@ -358,6 +358,7 @@ class C18(core.Prop):
     MUTANTS = {
         'bond_endpoints_by_key': {'rdkit': ("        mol.AddBond(node_to_idx[u], node_to_idx[v], bt)", "        mol.AddBond(u if u in node_to_idx.values() else node_to_idx[u], node_to_idx[v], bt)")},
         'charge_dropped': {'rdkit': ("        atom.SetFormalCharge(props.get('charge', 0))\n", "")},
+        'normalised_by_count': {'coordinates': ("        cg_pos = cg_pos / sum(weights.values())", "        cg_pos = cg_pos / len(weights)")},
         'unweighted_mean': {'coordinates': ("            cg_pos += aa_mol.nodes[aa_node]['position']*weight", "            cg_pos += aa_mol.nodes[aa_node]['position']")},
     }
 
